@@ -489,6 +489,65 @@ func (lw *LoopWorld) RunAdmin(signer sdk.AccAddress, emulate bool, msgs ...sdk.M
 	return o, nil
 }
 
+// RunSameBlock: an authority transaction and the relayer's RecvPacket for an already committed packet in ONE block, in this
+// order. Transactions of a block execute one after the other on the same state, so the packet must see the effect of the
+// admin message exactly as if it had been committed a block earlier (anything remembered per block or per height inside
+// the keepers would show here). Returns the acknowledgement core stored and the emulated one (message, then packet, on
+// a branch of the pre-state).
+func (lw *LoopWorld) RunSameBlock(admin sdk.Msg, s LoopStep) (realAck, emuAck []byte, codes [2]uint32, err error) {
+	auth, _ := sdk.AccAddressFromBech32(lw.Authority)
+	amt, _ := math.NewIntFromString(s.Amount)
+	seq, _ := lw.App.IBCKeeper.ChannelKeeper.GetNextSequenceSend(lw.Ctx, "transfer", "channel-1")
+	tx, err := lw.Tx(lw.Alice, transfertypes.NewMsgTransfer("transfer", "channel-1", sdk.NewCoin(lw.Vouchers[s.Base], amt), lw.Alice.String(), s.Receiver, loopTimeout, 0, s.Memo))
+	if err != nil {
+		return nil, nil, codes, err
+	}
+	rs, err := lw.Block(tx)
+	if err != nil || rs[0].Code != 0 {
+		return nil, nil, codes, fmt.Errorf("same-block step: cannot send: %v %v", err, rs)
+	}
+	d := transfertypes.FungibleTokenPacketData{Denom: "transfer/channel-1/" + s.Base, Amount: amt.String(), Sender: lw.Alice.String(), Receiver: s.Receiver, Memo: s.Memo}
+	pkt := channeltypes.NewPacket(d.GetBytes(), seq, "transfer", "channel-1", "transfer", "channel-0", loopTimeout, 0)
+	// emulation: message, then packet, on one branch
+	ectx := Branch(lw.Ctx)
+	lw.Msg(ectx, admin)
+	cctx, write := ectx.CacheContext()
+	if ack := lw.Stack.OnRecvPacket(cctx, pkt, lw.Relayer); ack != nil {
+		emuAck = ack.Acknowledgement()
+		if ack.Success() {
+			write()
+		}
+	}
+	t1, err := lw.Tx(auth, admin)
+	if err != nil {
+		return nil, nil, codes, err
+	}
+	t2, err := lw.Tx(lw.Relayer, channeltypes.NewMsgRecvPacket(pkt, localhost.SentinelProof, loopProofHeight, lw.Relayer.String()))
+	if err != nil {
+		return nil, nil, codes, err
+	}
+	rs, err = lw.Block(t1, t2)
+	if err != nil {
+		return nil, nil, codes, err
+	}
+	codes = [2]uint32{rs[0].Code, rs[1].Code}
+	if rs[0].Code != 0 {
+		lw.resyncSeq(auth)
+	}
+	if rs[1].Code != 0 {
+		lw.resyncSeq(lw.Relayer)
+		return nil, emuAck, codes, nil
+	}
+	realAck = ackOf(rs[1])
+	// relay the acknowledgement so that the sending end is settled
+	if tx, err = lw.Tx(lw.Relayer, channeltypes.NewMsgAcknowledgement(pkt, realAck, localhost.SentinelProof, loopProofHeight, lw.Relayer.String())); err == nil {
+		if rs, err = lw.Block(tx); err == nil && rs[0].Code != 0 {
+			lw.resyncSeq(lw.Relayer)
+		}
+	}
+	return realAck, emuAck, codes, err
+}
+
 // ---------------------------------------------------------------------------------------------
 // The conformance run: one linear block history; every step is compared with its emulation on the same state.
 
@@ -570,6 +629,8 @@ func loopRun(rep *Report, full bool) (transcript []string, err error) {
 			rep.Count(k, 1)
 		}
 	}
+	foldIn := map[string]*big.Int{}
+	var foldN uint64
 	// phases: the same menu in several environments reached by real transactions / environment toggles
 	type phase struct {
 		name string
@@ -643,10 +704,69 @@ func loopRun(rep *Report, full bool) (transcript []string, err error) {
 	} else {
 		count("loop_authority_key_unavailable")
 	}
+	if lw.AuthOK {
+		phases = append(phases, phase{"authority message and packet in the SAME block", func() error {
+			orb := lw.Orb.String()
+			fee := lw.feeMenu()[1]
+			pt := func(n int) string {
+				return Memo(Fwd{Kind: "cctp", Domain: 0, MintRecipient: b32(9), Passthrough: bytes.Repeat([]byte{7}, n)}, nil)
+			}
+			for _, st := range []struct {
+				label string
+				op    Op
+				step  LoopStep
+				ok    bool
+			}{
+				{"UpdateParams(6) ; passthrough 5B", lw.OpUpdateParams(6), LoopStep{Base: denomUSDC, Amount: "100", Receiver: orb, Memo: pt(5)}, true},
+				{"UpdateParams(4) ; passthrough 5B", lw.OpUpdateParams(4), LoopStep{Base: denomUSDC, Amount: "100", Receiver: orb, Memo: pt(5)}, false},
+				{"UpdateParams(0) ; passthrough 1B", lw.OpUpdateParams(0), LoopStep{Base: denomUSDC, Amount: "100", Receiver: orb, Memo: pt(1)}, false},
+				{"PauseAction(FEE) ; transfer with fee", lw.OpPauseAction("ACTION_FEE"), LoopStep{Base: denomUSDC, Amount: "5000", Receiver: orb, Memo: Memo(lw.FwdInternal(lw.Bob), fee)}, false},
+				{"UnpauseAction(FEE) ; transfer with fee", lw.OpUnpauseAction("ACTION_FEE"), LoopStep{Base: denomUSDC, Amount: "5000", Receiver: orb, Memo: Memo(lw.FwdInternal(lw.Bob), fee)}, true},
+				{"PauseCC(HYP,2) ; hyp(2)", lw.OpPauseCC("PROTOCOL_HYPERLANE", "2"), LoopStep{Base: denomUSDC, Amount: "700", Receiver: orb, Memo: Memo(lw.FwdHyp(2), nil)}, false},
+				{"UnpauseCC(HYP,2) ; hyp(2)", lw.OpUnpauseCC("PROTOCOL_HYPERLANE", "2"), LoopStep{Base: denomUSDC, Amount: "700", Receiver: orb, Memo: Memo(lw.FwdHyp(2), nil)}, true},
+				{"PauseProtocol(INTERNAL) ; internal", lw.OpPauseProtocol("PROTOCOL_INTERNAL"), LoopStep{Base: denomUSDC, Amount: "700", Receiver: orb, Memo: Memo(lw.FwdInternal(lw.Bob), nil)}, false},
+				{"UnpauseProtocol(INTERNAL) ; internal", lw.OpUnpauseProtocol("PROTOCOL_INTERNAL"), LoopStep{Base: denomUSDC, Amount: "700", Receiver: orb, Memo: Memo(lw.FwdInternal(lw.Bob), nil)}, true},
+			} {
+				realAck, emuAck, codes, err := lw.RunSameBlock(mk(st.op), st.step)
+				if err != nil {
+					return err
+				}
+				count("loop_same_block_steps")
+				count("evaluations")
+				lw.Transcript = append(lw.Transcript, fmt.Sprintf("  same block: %s codes=%v ack=%s", st.label, codes, trunc(string(realAck), 60)))
+				var a struct {
+					Result []byte `json:"result"`
+				}
+				_ = jsonUnmarshal(realAck, &a)
+				gotOK := len(a.Result) > 0
+				switch {
+				case codes[0] != 0 || codes[1] != 0:
+					violate("real-transaction-outcome", "same block: "+st.label, fmt.Sprintf("transaction codes %v (both transactions of the block must succeed)", codes))
+				case !bytes.Equal(realAck, emuAck):
+					violate("emulated-envelope-disagrees-with-real", "same block: "+st.label, fmt.Sprintf("acknowledgement of a packet executed in the same block as the authority message: real %q, emulated (message then packet) %q", realAck, emuAck))
+				case gotOK != st.ok:
+					violate("same-block-admin-message-not-in-force", "same block: "+st.label, fmt.Sprintf("the packet executed right after the authority message in the same block was %s; with the message in force it must be %s (ack %s)", map[bool]string{true: "executed", false: "refused"}[gotOK], map[bool]string{true: "executed", false: "refused"}[st.ok], realAck))
+				default:
+					if rep != nil {
+						rep.Outcome("same-block-message-in-force")
+					}
+				}
+				if gotOK && codes[1] == 0 {
+					// a transfer core acknowledged with success: part of the statistics fold
+					if v, ok := parseIntLikeSDK(st.step.Amount); ok {
+						if foldIn[st.step.Base] == nil {
+							foldIn[st.step.Base] = new(big.Int)
+						}
+						foldIn[st.step.Base].Add(foldIn[st.step.Base], v)
+						foldN++
+					}
+				}
+			}
+			return nil
+		}})
+	}
 	phases = append(phases, phase{"token factory paused", func() error { return lw.ApplyEnv(lw.Ctx, "ftf-pause") }})
 	menu := lw.loopMenu(full)
-	foldIn := map[string]*big.Int{}
-	var foldN uint64
 	for pi, ph := range phases {
 		if err := ph.prep(); err != nil {
 			return lw.Transcript, fmt.Errorf("loop phase %q: %w", ph.name, err)
